@@ -85,6 +85,7 @@ int ref_pq_read(ref_arena* a, const uint8_t* img, size_t n, ref_file* out, unsig
 /* ref_compress_form selects among equally valid encodings: 0 default; 1 = SNAPPY: the whole input as ONE literal element (1..4 length bytes);
  * ZSTD: a frame whose header carries no Frame_Content_Size (what streaming compressors emit) */
 extern int ref_compress_form;
+extern int ref_pq_gap_before_rg; extern uint64_t ref_pq_gap_bytes; extern size_t ref_pq_gap_pos;      /* a hole in front of a row group (files beyond 2 / 4 GiB without writing them) */
 int ref_compress(int codec, const uint8_t* in, size_t n, ref_buf* out);
 int ref_decompress(int codec, const uint8_t* in, size_t n, uint8_t* out, size_t cap, size_t* out_n);
 #endif
